@@ -23,5 +23,7 @@ for name, edits in muts.items():
             open(p, "w").write(s.replace(old, new, 1))
         else:
             r = subprocess.run(["diff", "-ru", "a", "b"], cwd=d, capture_output=True, text=True)
-            open(os.path.join(out, name + ".diff"), "w").write(r.stdout)
+            import re
+            text = re.sub(r"^(--- |\+\+\+ )(\S+)\t.*$", r"\1\2", r.stdout, flags=re.M)  # no timestamps: stable files
+            open(os.path.join(out, name + ".diff"), "w").write(text)
             print("wrote", name, len(r.stdout.splitlines()), "lines")
